@@ -224,11 +224,11 @@ Qed.
 (* ---- from shapes to opcodes ---------------------------------------------------------------- *)
 
 Lemma builtin_shape_irr : forall id c, shape_irr (builtin_shape id) = Some c ->
-  c = IrrBuiltinRead /\ (id =? 12) = true.
+  c = IrrBuiltinRead /\ (id =? lib_math_read) = true.
 Proof.
   intros id c. unfold builtin_shape.
-  destruct ((id =? 7) || (id =? 22)); [discriminate|].
-  destruct (id =? 12); [|discriminate]. cbn. intros H. inversion H. auto.
+  destruct ((id =? lib_math_pow) || (id =? lib_math_assertf)); [discriminate|].
+  destruct (id =? lib_math_read); [|discriminate]. cbn. intros H. inversion H. auto.
 Qed.
 
 Lemma shape_of_irr : forall i delta c, shape_irr (shape_of i delta) = Some c -> irregular_of i = Some c.
@@ -277,7 +277,7 @@ Qed.
 Theorem no_write_outside_stack_partial :
   forall i fault delta S sp,
     ~ In (r_op i) [BYTECODE_MARK; BYTECODE_DUP; BYTECODE_ALLOC; BYTECODE_RECORD_UNPACK] ->
-    ~ (r_op i = BYTECODE_BUILD_IN /\ r_w0 i = 12) ->
+    ~ (r_op i = BYTECODE_BUILD_IN /\ r_w0 i = lib_math_read) ->
     -1 <= sp < S ->
     no_underflow sp (plan_pinned i fault delta) = true ->
     shape_delta_ok (shape_at i fault delta) = true ->
@@ -289,7 +289,7 @@ Proof.
   apply no_write_outside_stack_variant; auto.
   intros c Hc. exfalso. unfold irregular_of in Hc. cbn [In] in H1.
   destruct (r_op i) eqn:E; try discriminate; try (apply H1; tauto).
-  destruct (r_w0 i =? 12) eqn:E12; [|discriminate]. apply Z.eqb_eq in E12. tauto.
+  destruct (r_w0 i =? lib_math_read) eqn:E12; [|discriminate]. apply Z.eqb_eq in E12. tauto.
 Qed.
 
 (* ---- the pinned plans do write outside the stack ------------------------------------------- *)
@@ -303,7 +303,7 @@ Theorem no_write_outside_stack_refuted :
   exec_writes 10 9 (plan_pinned (ri BYTECODE_DUP 1) false 1) = OobWrite 10 /\
   exec_writes 5 (-1) (plan_pinned (ri BYTECODE_ALLOC 30) false 30) = OobWrite 5 /\
   exec_writes 10 8 (plan_pinned (ri BYTECODE_RECORD_UNPACK 3) false 2) = OobWrite 10 /\
-  exec_writes 10 9 (plan_pinned (ri BYTECODE_BUILD_IN 12) false 1) = OobWrite 10.
+  exec_writes 10 9 (plan_pinned (ri BYTECODE_BUILD_IN lib_math_read) false 1) = OobWrite 10.
 Proof. vm_compute. repeat split. Qed.
 
 (* the same states under the check-first plans: the limit is reported, nothing is written *)
@@ -312,7 +312,7 @@ Theorem witnesses_checked_report_limit :
   exec_writes 10 9 (plan_checked (ri BYTECODE_DUP 1) false 1) = LimitReported /\
   exec_writes 5 (-1) (plan_checked (ri BYTECODE_ALLOC 30) false 30) = LimitReported /\
   exec_writes 10 8 (plan_checked (ri BYTECODE_RECORD_UNPACK 3) false 2) = LimitReported /\
-  exec_writes 10 9 (plan_checked (ri BYTECODE_BUILD_IN 12) false 1) = LimitReported.
+  exec_writes 10 9 (plan_checked (ri BYTECODE_BUILD_IN lib_math_read) false 1) = LimitReported.
 Proof. vm_compute. repeat split. Qed.
 
 (* exactly which states make the pinned MARK write outside: the top five slots *)
